@@ -16,6 +16,14 @@ ListsUpTo3(n) == ListsUpTo2(n) \cup {<<a, b, c>> : a \in 1..n, b \in 1..n, c \in
 Lists4x2 == ListsUpTo2(4)
 Lists4x3 == ListsUpTo3(4)
 Lists2x2 == ListsUpTo2(2)
+ListsRel == {<<>>, <<1>>, <<2, 1>>}              \* C24: all devices / only motor 1 / both listed
+ListsCurated == {<<>>, <<2>>, <<3, 2>>, <<2, 4>>, <<4, 1, 3>>}   \* C23 quick replay: shared root twice, two trees, root + child
+PosOne == {1}
+PosSmall == {-2, 1}
+PosLarge == {-2, 0, 1}
+OffOne == {2}
+OffSmall == {-1, 2}
+OffLarge == {-2, -1, 2}
 Items2 == {<<>>, <<1>>, <<1, 2>>, <<2, 1>>}
 Items3 == Items2 \cup {<<1, 2, 3>>, <<3, 1, 2>>}
 =============================================================================
